@@ -5,3 +5,4 @@ import TaskModel.Finger.GlobsLemmas
 import TaskModel.Finger.Machine
 import TaskModel.Finger.MachineLemmas
 import TaskModel.Finger.Facts
+import TaskModel.Finger.StreamLemmas
